@@ -159,6 +159,21 @@ func (h hist) firstNote(name string) (simrt.Rec, bool) {
 
 func ns(d int64) time.Duration { return time.Duration(d) }
 
+// stalledIn is the total length of the injected stalls of library goroutines that began
+// within [from, to] (simulated ns since the start of the run): the latency budget every
+// "not later than" rule grants on top of its bound.
+func stalledIn(res *simrt.Result, from, to int64) int64 {
+	total := int64(0)
+
+	for _, r := range res.Hist {
+		if r.Kind == simrt.KNote && r.Note == "sim-stall" && r.T >= from && r.T <= to {
+			total += r.Val
+		}
+	}
+
+	return total
+}
+
 func libTasksAlive(res *simrt.Result) []string {
 	var out []string
 
